@@ -205,6 +205,10 @@ func genFlowPlan(g *simrt.Rng, tier string, ends []int) *FlowPlan {
 	if g.Bool(0.1) {
 		maxSize = 262144
 	}
+	if (p.Net.BufCap > 0 && p.Net.BufCap <= 64) || (p.Net.SegMax > 0 && p.Net.SegMax <= 3) || (p.Net.ReadMax > 0 && p.Net.ReadMax <= 2) {
+		// byte-sized transport steps: keep the run within the step budget
+		maxSize = min(maxSize, 4096)
+	}
 	nCh := 1 + g.IntN(maxCh)
 	for i := 0; i < nCh; i++ {
 		p.Channels = append(p.Channels, genChan(g, &p.Env, nCli, maxMsg, maxSize, ends))
